@@ -1,5 +1,7 @@
 //! One module per property; `check` dispatches.
 
+pub mod c11;
+pub mod c12;
 pub mod c15;
 
 use crate::report::Violation;
@@ -10,6 +12,8 @@ pub fn setup() {
 
 pub fn check(id: &str, tier: &str) -> i32 {
     match id {
+        "C11" => c11::check(tier),
+        "C12" => c12::check(tier),
         "C15" => c15::check(tier),
         _ => {
             eprintln!("MACHINERY-ERROR: no check for {id}");
@@ -20,6 +24,8 @@ pub fn check(id: &str, tier: &str) -> i32 {
 
 pub fn replay(v: &Violation) -> i32 {
     match v.property.as_str() {
+        "C11" => c11::replay(v),
+        "C12" => c12::replay(v),
         "C15" => c15::replay(v),
         _ => {
             eprintln!("MACHINERY-ERROR: no replay for {}", v.property);
